@@ -37,7 +37,7 @@ package container
 //@   modifies nothing
 // poll talks to the API server without holding the lock: anything may happen
 // to the queue meanwhile.
-//@ func Queue.poll property C14 safety -bounds,-nil
+//@ func Queue.poll property C14,C16 safety -bounds,-nil
 //@   modifies all
 //@   # the containers locked by this dispatcher are fetched and applied first,
 //@   # the queued ones second (a container that changes hands between the two
@@ -67,7 +67,7 @@ package container
 // poll (locked-by-me list first, queued list second, ...) the one fetched LAST
 // is what the poll reports - a container unlocked between the two requests
 // must not stay "Locked" in the dispatcher's view.
-//@ func Queue.poll$1 property C14 safety -nil
+//@ func Queue.poll$1 property C14,C16 safety -nil
 //@   # (poll makes the map just before it defines this function)
 //@   requires next != nil
 //@   at loop 1 back: assert next[upd.UUID] != nil
@@ -77,7 +77,7 @@ package container
 // fetchAll: every page is appended whole, paging stops only at an empty page,
 // the next page starts after the last UUID received (or at the next offset),
 // and a failed request fails the whole fetch.
-//@ func Queue.fetchAll property C14 safety -bounds,-nil
+//@ func Queue.fetchAll property C14,C16 safety -bounds,-nil
 //@   ghost rerr error = nil
 //@   calls APIClient.RequestAndDecode#1: requires $1 == "GET" && $2 == "arvados/v1/containers"
 //@   calls APIClient.RequestAndDecode#1: set rerr = $r
